@@ -16,19 +16,27 @@
 (***************************************************************************)
 EXTENDS RemoteEndpoint, TLC, Json
 
-CONSTANTS MaxOps, MaxEdits, Limit, ReadOnly, Watch
+CONSTANTS MaxOps, MaxEdits, Limit, ReadOnly, Watch, InitDisks
 Cfg == [limit |-> Limit, readonly |-> ReadOnly, watch |-> Watch]
 
 VARIABLES ep, last, dead, n, ne, trail
 vars == <<ep, last, dead, n, ne, trail>>
 View == <<ep, last, dead, n, ne>>
 
-Init == ep = EpInit(Cfg) /\ last = FALSE /\ dead = FALSE /\ n = 0 /\ ne = 0 /\ trail = <<>>
+Init ==
+  /\ \E d \in InitDisks :
+       /\ ep = [EpInit(Cfg) EXCEPT !.disk = d, !.snap = d]
+       /\ trail = IF d = "E" THEN <<[op |-> "Edit", kind |-> "rm"]>> ELSE <<>>      \* no root yet
+  /\ last = FALSE /\ dead = FALSE /\ n = 0 /\ ne = 0
 
 Issue(step) == /\ ~dead /\ n < MaxOps /\ n' = n + 1 /\ ne' = ne /\ trail' = Append(trail, step)
 
 Fulls == IF Watch = "poll" THEN BOOLEAN ELSE {FALSE}
-Ancs == IF last THEN {"nil", "src"} ELSE {"nil", "prev", "src", "junk"}   \* the ancestor only matters without last bytes
+\* The ancestor is the baseline as long as the client holds no bytes of a populated
+\* snapshot, and it may be a different one on every call: nothing, the previous
+\* snapshot, the (large, similar) source tree, the source tree altered in the
+\* middle, a small or a large unrelated tree.
+Ancs == IF last THEN {"nil", "src"} ELSE {"nil", "prev", "src", "srcmid", "junk", "big"}
 
 Scan(full, anc, cancel) ==
   /\ Issue([op |-> "Scan", full |-> full, anc |-> anc, cancel |-> cancel])
@@ -88,5 +96,5 @@ ExportEdge ==
                                             readonly |-> ReadOnly, limit |-> TRUE]])>>)
 
 \* sanity of the generator itself
-TypeOK == n \in 0..MaxOps /\ ne \in 0..MaxEdits /\ ep.disk \in Vals /\ Len(trail) = n + ne
+TypeOK == n \in 0..MaxOps /\ ne \in 0..MaxEdits /\ ep.disk \in Vals /\ Len(trail) \in {n + ne, n + ne + 1}
 ====
